@@ -247,10 +247,26 @@ Lemma fput_room s bs : foff s + N.of_nat (length bs) <= fcap s ->
   fput s bs = mkF (fcap s) (rev bs ++ frev s) (ferr s) (fn s) (fv s).
 Proof. intros H. unfold fput. destruct (N.ltb_spec (fcap s) (foff s + N.of_nat (length bs))); [lia|reflexivity]. Qed.
 
+Lemma fold_fput_room (g : N -> list N) l : forall s,
+  foff s + N.of_nat (length (concat (map g l))) <= fcap s ->
+  fold_left (fun st w => fput st (g w)) l s
+  = mkF (fcap s) (rev (concat (map g l)) ++ frev s) (ferr s) (fn s) (fv s).
+Proof.
+  induction l as [|w t IH]; intros s H; cbn [fold_left map concat].
+  - destruct s; reflexivity.
+  - cbn [map concat] in H. rewrite app_length in H.
+    rewrite (fput_room s (g w)) by lia.
+    rewrite IH.
+    + cbn [fcap frev ferr fn fv]. rewrite rev_app_distr, <- app_assoc. reflexivity.
+    + unfold foff in *. cbn [frev fcap]. rewrite app_length, rev_length. lia.
+Qed.
+
 Lemma fstep_bytes s o bs : fop_bytes o = Some bs -> foff s + N.of_nat (length bs) <= fcap s ->
   fstep s o = mkF (fcap s) (rev bs ++ frev s) (ferr s) (fn s) (fv s).
 Proof.
-  intros Hb Hroom. destruct o; cbn [fop_bytes] in Hb; try discriminate; injection Hb as <-; cbn [fstep].
+  intros Hb Hroom. destruct o; cbn [fop_bytes] in Hb;
+    (match type of Hb with None = _ => discriminate Hb | _ => idtac end);
+    apply (f_equal (fun x => match x with Some y => y | None => [] end)) in Hb; cbv beta iota in Hb; subst bs; cbn [fstep].
   - apply fput_room, Hroom.
   - unfold fput24. rewrite be_bytes_length in Hroom.
     destruct (N.ltb_spec (fcap s) (foff s + 3)); [lia|].
@@ -266,10 +282,7 @@ Proof.
   - unfold fput_matrix.
     assert (Hl : length (concat (map (be_bytes 4) unity_words)) = 36%nat) by reflexivity.
     rewrite Hl in Hroom. destruct (N.ltb_spec (fcap s) (foff s + 36)); [lia|].
-    unfold unity_words. cbn [fold_left map concat].
-    repeat (rewrite fput_room by (unfold foff in *; cbn [frev fcap]; repeat rewrite app_length, rev_length, be_bytes_length; lia);
-            cbn [fcap frev ferr fn fv]).
-    f_equal. repeat rewrite rev_app_distr. repeat rewrite <- app_assoc. rewrite app_nil_r. cbn [rev app]. reflexivity.
+    apply fold_fput_room. rewrite Hl. exact Hroom.
 Qed.
 
 Lemma fsw_byte_ops cap : forall ops bss,
